@@ -246,3 +246,160 @@ def rule_REMC(FA):
     if not out:
         out.append(Inst('R-REMC', 'R-REMC|none', 'note', '', 'no length remainder is used as a count', ['C05'], nontrivial=False))
     return out
+
+
+# ---------------------------------------------------------------- R-PAR
+
+SELF = ('param', 'self')
+PUSHES = ('push', 'push_back', 'extend_from_slice', 'insert')
+
+
+def _self_vec_fields(tm):
+    """names of the self fields a container term is (a view of)"""
+    return {st[2] for st in subterms(tm) if isinstance(st, tuple) and st[:2] == ('field', SELF) and isinstance(st[2], str)}
+
+
+def _parallel_fields(FA, base):
+    """pairs of fields of `base` that some method indexes with the SAME index term: parallel arrays"""
+    pairs = {}
+    for f in FA.lib_fns(include_closures=False):
+        if f.get('_base') != base:
+            continue
+        F = FA.fn(FA.inlined(f))
+        F.dom()
+        by_idx = {}
+        for bi, t in F.calls():
+            fn = t['f']['fn']
+            if fn['name'] not in ('index', 'index_mut', 'get_unchecked', 'get') or len(t['args']) != 2 or fn.get('local'):
+                continue
+            cont = norm(F.operand_term(t['args'][0]))
+            idx = norm(F.operand_term(t['args'][1]))
+            if idx[:1] == ('const',):
+                continue
+            # the container itself (not an element of another indexed container)
+            if any(isinstance(st, tuple) and st[:1] == ('call',) and st[1].split('::')[-1] in ('index', 'get_unchecked') for st in subterms(cont)):
+                continue
+            for fld in _self_vec_fields(cont):
+                by_idx.setdefault(idx, set()).add(fld)
+        for idx, flds in by_idx.items():
+            for a in flds:
+                for b in flds:
+                    if a < b:
+                        pairs.setdefault((a, b), (f['name'], show(idx)[:40]))
+    return pairs
+
+
+def _container_ids(F, o, depth=0):
+    """identities of the local container(s) whose contents an operand of the Self aggregate carries (through Some(..))"""
+    from .r_misc import _origin_id
+    if 'p' not in o or depth > 4:
+        return set()
+    l = o['p']['l']
+    ds = [d for d in F.defs.get(l, []) if d[0] in F.reach]
+    out = set()
+    if len(ds) <= 1 and not (ds and ds[0][1] == 'assign' and ds[0][2]['k'] == 'agg'):
+        out.add(_origin_id(F, l))
+        return out
+    for d in ds:
+        if d[1] == 'assign' and d[2]['k'] == 'agg' and d[2]['ops']:
+            for o2 in d[2]['ops']:
+                out |= _container_ids(F, o2, depth + 1)
+        elif d[1] == 'assign' and d[2]['k'] == 'use' and 'p' in d[2]['a']:
+            out |= _container_ids(F, d[2]['a'], depth + 1)
+    return out
+
+
+def rule_PAR(FA):
+    """Parallel arrays: two vector fields that a reader indexes with the same index (`qvs[level]`, `prefetch_support[level]`)
+    must receive one element per step of the same construction loop.  A push into one of them that is controlled by a
+    condition on the element being appended (its length, its content) while the other push is unconditional makes the two
+    arrays drift apart: entry k of one no longer describes entry k of the other."""
+    from .r_misc import _recv_id
+    out = []
+    for base, adt in sorted(FA.adts.items()):
+        names = [x['name'] for x in adt.get('fields', [])]
+        if len(names) < 2:
+            continue
+        ctors = [f for f in FA.by_base_name.get((base, 'new'), [])]
+        if not ctors:
+            continue
+        seqf = {x['name'] for x in adt['fields'] if 'Vec<' in x['ty'] or 'Box<[' in x['ty']}
+        pairs = {k: v for k, v in _parallel_fields(FA, base).items() if k[0] in seqf and k[1] in seqf}
+        if not pairs:
+            continue
+        f = ctors[0]
+        props = sorted(set(props_of_module(fn_key(f))) | {'C04'} | ({'C09'} if 'prefetch_support' in seqf else set()))
+        G = FA.inlined(f)
+        for spec in FA.specs(f, deep=True):
+            F = FA.fn(G, spec)
+            F.dom()
+            owner = FA.canon_type(base) or base
+            conts = {}
+            for bi, b in enumerate(F.blocks):
+                if bi not in F.reach:
+                    continue
+                for st in b['s']:
+                    rv = st['rv']
+                    if rv['k'] == 'agg' and rv['kind'].get('adt') == owner:
+                        for i, o in enumerate(rv['ops']):
+                            if i < len(names):
+                                conts.setdefault(names[i], set()).update(_container_ids(F, o))
+            pushes = {}
+            for bi, t in F.calls():
+                if t['f']['fn']['name'] in PUSHES and t['args']:
+                    rid = _recv_id(F, t['args'][0])
+                    if rid is not None:
+                        pushes.setdefault(rid, []).append((bi, t))
+            for (a, b), (reader, idx) in sorted(pairs.items()):
+                key = 'R-PAR|%s|%s,%s%s' % (base, a, b, spec_key(spec))
+                pa = [x for c in conts.get(a, ()) for x in pushes.get(c, [])]
+                pb = [x for c in conts.get(b, ()) for x in pushes.get(c, [])]
+                if not pa or not pb:
+                    continue    # one of the two is not built by appends in this configuration
+                if len(pa) != 1 or len(pb) != 1:
+                    out.append(Inst('R-PAR', key, 'note', f['span'], '`%s` and `%s` are indexed together in `%s` but their appends were not both found in the constructor (%d / %d): not decided' % (a, b, reader, len(pa), len(pb)), props))
+                    continue
+                (ba, ta), (bb_, tb) = pa[0], pb[0]
+                A = set(path_atoms(F, ba))
+                B = set(path_atoms(F, bb_))
+                bad = None
+                for (xa, xb, na, nb, tn) in ((A, B, a, b, tb), (B, A, b, a, ta)):
+                    extra = [at for at in xb - xa if not all(_const_like(x) for x in at[1:])
+                             and not any(isinstance(st, tuple) and st[:1] == ('call',) and st[1].split('::')[-1] in ('next', 'next_back')
+                                         for x in at[1:] if isinstance(x, tuple) for st in subterms(x))]   # loop control of an inlined helper
+                    extra.sort(key=lambda at: len(fmt_atom(at)))
+                    if not extra:
+                        continue
+                    # the pushed element of either array: a condition on IT is data-dependent
+                    vals = set()
+                    for t_ in (ta, tb):
+                        for o in t_['args'][1:]:
+                            vals |= {st for st in subterms(norm(F.operand_term(o))) if isinstance(st, tuple) and st[:1] in (('call',), ('field',)) and not _const_like(st)}
+                    for at in extra:
+                        if any(contains(x, v) for x in at[1:] if isinstance(x, tuple) for v in vals):
+                            bad = (tn.get('line', ''), nb, na, fmt_atom(at))
+                            break
+                    if bad:
+                        break
+                    out.append(Inst('R-PAR', key + '|cond', 'note', tn.get('line', ''), 'the append to `%s` is under a condition (%s) the append to `%s` is not under; it does not depend on the appended element: not decided' % (nb, fmt_atom(extra[0])[:60], na), props))
+                if bad:
+                    out.append(Inst('R-PAR', key, 'violation', bad[0],
+                                    '`%s` and `%s` are indexed with the same index (`%s` in `%s`), but the constructor appends to `%s` only when `%s`, a condition on the appended element itself, and to `%s` on every step: the arrays drift apart' % (
+                                        a, b, idx, reader, bad[1], bad[3][:70], bad[2]), props))
+                else:
+                    out.append(Inst('R-PAR', key, 'ok', f['span'], '`%s` and `%s` (indexed together in `%s`) are appended under the same conditions, once per step' % (a, b, reader), props))
+    if not out:
+        out.append(Inst('R-PAR', 'R-PAR|none', 'note', '', 'no pair of fields indexed with one index', ['C09'], nontrivial=False))
+    return out
+
+
+def _const_like(t):
+    if not isinstance(t, tuple):
+        return True
+    if t[:1] == ('const',):
+        return True
+    if t[:1] in (('cast',), ('un',)):
+        return all(_const_like(x) for x in t[1:] if isinstance(x, tuple))
+    if t[:1] == ('bin',):
+        return _const_like(t[2]) and _const_like(t[3])
+    return False
